@@ -1,0 +1,39 @@
+//go:build verif
+
+package diodes
+
+// Contracts for the verifier in /verif (govc). Comment-only file.
+//
+// The ring is touched only through sync/atomic operations, each taken as one
+// indivisible sequentially consistent step. With `flag interference`, every
+// atomic read of a shared location (the ring slots, writeIndex) returns an
+// arbitrary value - whatever other goroutines may have stored in between - so
+// each function is verified against every state its environment can produce,
+// not against an enumeration of schedules.
+
+//@ track atomic.AddUint64, atomic.CompareAndSwapPointer, atomic.SwapPointer, atomic.LoadPointer, Alerter.Alert, Diode.TryNext, Diode.Set, Poller.isDone, Waiter.isDone
+
+//@ func (*ManyToOne).TryNext(d) data, ok
+//@   props C10 C11
+//@   arith bv
+//@   flag interference buffer
+//@   flag replay diode_ring
+//@   requires d != nil && len(d.buffer) > 0 && d.alerter != nil
+//@   ensures ncalls(atomic.SwapPointer) == old(ncalls(atomic.SwapPointer)) + 1
+//@   ensures !ok ==> d.readIndex == old(d.readIndex) && ncalls(Alerter.Alert) == old(ncalls(Alerter.Alert)) && data == nil
+//@   ensures ok ==> callres(atomic.SwapPointer, old(ncalls(atomic.SwapPointer)), 0) != nil && cast(callres(atomic.SwapPointer, old(ncalls(atomic.SwapPointer)), 0), "*bucket").seq >= old(d.readIndex) && d.readIndex == cast(callres(atomic.SwapPointer, old(ncalls(atomic.SwapPointer)), 0), "*bucket").seq + 1 && data == cast(callres(atomic.SwapPointer, old(ncalls(atomic.SwapPointer)), 0), "*bucket").data
+//@   ensures [C10] ok && cast(callres(atomic.SwapPointer, old(ncalls(atomic.SwapPointer)), 0), "*bucket").seq > old(d.readIndex) ==> ncalls(Alerter.Alert) == old(ncalls(Alerter.Alert)) + 1 && callarg(Alerter.Alert, old(ncalls(Alerter.Alert)), 0) == d.alerter && callarg(Alerter.Alert, old(ncalls(Alerter.Alert)), 1) == int(cast(callres(atomic.SwapPointer, old(ncalls(atomic.SwapPointer)), 0), "*bucket").seq - old(d.readIndex))
+//@   ensures [C10] ok && cast(callres(atomic.SwapPointer, old(ncalls(atomic.SwapPointer)), 0), "*bucket").seq == old(d.readIndex) ==> ncalls(Alerter.Alert) == old(ncalls(Alerter.Alert))
+//@   ensures [C11] ok ==> d.readIndex - old(d.readIndex) == 1 + (cast(callres(atomic.SwapPointer, old(ncalls(atomic.SwapPointer)), 0), "*bucket").seq - old(d.readIndex))
+
+//@ func (*ManyToOne).Set(d, data)
+//@   props C10 C11
+//@   arith bv
+//@   flag interference buffer writeIndex
+//@   flag replay diode_ring
+//@   flag replay@post(4) diode_hole
+//@   requires d != nil && len(d.buffer) > 0
+//@   ensures [C10] ncalls(atomic.CompareAndSwapPointer) > old(ncalls(atomic.CompareAndSwapPointer)) && callres(atomic.CompareAndSwapPointer, ncalls(atomic.CompareAndSwapPointer) - 1, 0)
+//@   ensures [C10] cast(callarg(atomic.CompareAndSwapPointer, ncalls(atomic.CompareAndSwapPointer) - 1, 2), "*bucket").seq == callres(atomic.AddUint64, ncalls(atomic.AddUint64) - 1, 0) && cast(callarg(atomic.CompareAndSwapPointer, ncalls(atomic.CompareAndSwapPointer) - 1, 2), "*bucket").data == data
+//@   ensures [C11] callarg(atomic.CompareAndSwapPointer, ncalls(atomic.CompareAndSwapPointer) - 1, 1) != nil && cast(callarg(atomic.CompareAndSwapPointer, ncalls(atomic.CompareAndSwapPointer) - 1, 1), "*bucket").seq < 9223372036854775808 ==> cast(callarg(atomic.CompareAndSwapPointer, ncalls(atomic.CompareAndSwapPointer) - 1, 1), "*bucket").seq < cast(callarg(atomic.CompareAndSwapPointer, ncalls(atomic.CompareAndSwapPointer) - 1, 2), "*bucket").seq
+//@   ensures [C11] ncalls(atomic.AddUint64) == old(ncalls(atomic.AddUint64)) + 1
